@@ -7,10 +7,12 @@ from vk.rtc.harness import run_cases
 from vk.specs import chain as S
 from vk.specs import universe as U
 
-LEVEL = "exploration"
+LEVEL = "other"
 TECHNIQUE = ("contracts on the construction pipeline (_terms_to_table -> construct_symbolic_mpo -> numeric tensors, swap_site) evaluated at run time: "
              "exact formal-sum equality of the symbolic MPO, dense equality against an independent Kronecker sum, QN-valid labels, site-swap = "
-             "permutation similarity; bounded-exhaustive term tables (bounded stand-in; the NumPy/scipy.sparse index algebra is outside the VC generator)")
+             "permutation similarity; bounded-exhaustive term tables (bounded stand-in; the NumPy/scipy.sparse index algebra is outside the VC generator); "
+             "Engine S: the real graph-based constructor executed with indeterminate coefficients, multiplied out and decided by exact normal form "
+             "(for all coefficient values per enumerated term structure)")
 ALGOS = ("qr", "Hopcroft-Karp", "Hungarian")
 
 
@@ -293,6 +295,8 @@ def check(run):
     seeds = [run.seed] if run.tier == "quick" else [run.seed, run.seed + 1, run.seed + 2]
     cases = [(m, s, run.tier) for m in models(run.tier) for s in seeds]
     run_cases(run, worker, cases)
+    from props import C01_sym
+    C01_sym.prove_chain(run)
     run.rule = ("models {spin chains, spin with 1 and 2 quantum numbers, spin+shifted oscillator+electron, Holstein-like, multi-DoF electron sites, single site, "
                 "pair} x random term lists (1..6 terms, support <= 3 sites, repeated symbols on a site, DoFs written out of site order, duplicates, exact and "
                 "partial cancellations, factors 2e-6..3e5 real/complex, offsets) x algorithms {qr, Hopcroft-Karp, Hungarian} x sequences of adjacent swaps; "
